@@ -252,4 +252,26 @@ PROPS = {
                         "derive(Clone) of Target yields an equal value; derive(Default) of AnyStrategyAdapter yields the unit struct",
                         "suspension points erased (R1): the adapters are sequential"],
     },
+    "C20": {
+        "units": ["U15"],
+        "level": "proof",
+        "witness": [(r".", "agones")],
+        "sweep": ["agones"],
+        "bounded": [("agones", "the watcher event loop inside AgonesDiscoveryAdapter::new (tokio::spawn, select!, the RwLock guard, kube-runtime's watcher stream) is outside "
+                     "the verifier's reach: that Apply / InitApply go to apply_server, Delete to remove_target, and that a completed (re-)list replaces the cache is "
+                     "checked only on 12 scripted watch histories (ADDED / MODIFIED / DELETED, 410-Gone re-lists, objects vanishing while the watch is down, "
+                     "unconvertible objects, labels named `state`) served by a loopback mock of the Kubernetes API to the real adapter")],
+        "explanation": "Proved (Verus, functions extracted from /repo on this run): `TryFrom<GameServer> for Target` is Ok exactly for a GameServer with a name, a status, an "
+                       "address that parses and at least one port, and then yields that name, (parsed address, first port) and the metadata counters < lists < labels < "
+                       "annotations < observed state (whole-map equality; the `state` entry is always the observed state); `apply_server(cache, server)` leaves every "
+                       "other GameServer's target untouched, offers the converted target iff the GameServer is convertible and Ready or Allocated, removes it otherwise "
+                       "(also when it can no longer be converted), and keeps identifiers unique; `remove_target` drops exactly that identifier. Not proved, bounded only: the "
+                       "event loop that feeds these steps (see bounded stand-in) - so the history-level statement of C20 rests on the per-event contracts plus a finite sweep.",
+        "not_covered": ["kube-runtime's watcher (event order, backoff, bookmarks) and the Kubernetes API itself", "AgonesDiscoveryAdapter::discover (a clone of the cache under the read lock)",
+                        "two GameServers with the same name in different namespaces (the cache is keyed by name)"],
+        "assumptions": ["HashMap/BTreeMap with String keys behave like finite maps of the keys' contents; iterating yields every entry once",
+                        "kube-derive's GameServer / ObjectMeta mirrored by hand (name, labels, annotations, status); ResourceExt::labels/annotations return the metadata's map or an empty one",
+                        "IpAddr::from_str, u32 Display and [String]::join are uninterpreted functions of the text / value",
+                        "derive(Clone) of GameServerStatus yields an equal value"],
+    },
 }
